@@ -142,9 +142,14 @@ def run(ctx):
     pw = ctx.func('voltage.waterfall.get_pfb_waterfall')
     r, I = ctx.run(pw)
     rr, IR = ctx.run_ref(pw, REF_PFB_WATERFALL)
-    ctx.formula('AGREE', 'get_pfb_waterfall (after the accumulation loop) == reference: concatenate coarse channels on the '
-                         'frequency axis, integrate int_factor time rows', pw, r.ret, rr.ret, node=pw.node,
-                construct='return XX_psd')
+    o_ret = ctx.formula('AGREE', 'get_pfb_waterfall (after the accumulation loop) == reference: concatenate coarse channels on the '
+                        'frequency axis, integrate int_factor time rows', pw, r.ret, rr.ret, node=pw.node,
+                        construct='return XX_psd')
+    # when the polarisation loop is unrolled on both sides the returned value is a closed form that contains every
+    # accumulation: decided equal, it leaves nothing for the step-by-step comparison (which would only pin down WHERE the
+    # shift is applied: before or after adding the polarisations is the same function)
+    closed = o_ret.verdict == 'HOLDS' and not any(a_.kind in ('after', 'loopvar') for t_ in (r.ret, rr.ret)
+                                                  for a_ in T.all_atoms(t_).values())
 
     def accum(II):
         # the per-polarisation accumulation (inside a loop, or unrolled over the literal polarisation list)
@@ -156,8 +161,9 @@ def run(ctx):
     ctx.require(a and ar, 'get_pfb_waterfall: accumulation into XX_psd inside the polarisation loop not found')
     # (compared as guarded events: the x polarisation added once under either branch, or once unconditionally, is the same)
     from .common import _match_groups
-    _match_groups(ctx, 'AGREE', 'get_pfb_waterfall: |fftshift(fft(fine axis)/sqrt(F))|^2 of every given polarisation is added once',
-                  pw, 'accumulation', a, ar, lambda e: [('value', e.data['rhs']), ('guard', e.cond())], lambda e: e.text()[:70])
+    if not closed:
+        _match_groups(ctx, 'AGREE', 'get_pfb_waterfall: |fftshift(fft(fine axis)/sqrt(F))|^2 of every given polarisation is added once',
+                      pw, 'accumulation', a, ar, lambda e: [('value', e.data['rhs']), ('guard', e.cond())], lambda e: e.text()[:70])
     def zeros_init(II, acc):
         nm = acc[0].data['name']
         return [e for e in II.events if e.kind == 'store' and e.data.get('target') == 'name' and e.data.get('name') == nm
